@@ -285,6 +285,10 @@ Definition mmul (A B : mat (T:=T)) : mat (T:=T) :=
   let '(b1, b2, b3) := Bt in
   ((dot O a1 b1, dot O a1 b2, dot O a1 b3), (dot O a2 b1, dot O a2 b2, dot O a2 b3), (dot O a3 b1, dot O a3 b2, dot O a3 b3)).
 Definition mid : mat (T:=T) := ((o1 O, z0 O, z0 O), (z0 O, o1 O, z0 O), (z0 O, z0 O, o1 O)).
+(* rotate(mesh, [a, b, c]): the rotation composed of the rotations Rx, Ry, Rz by the three angles about x, y, z, in the
+   convention the code passes to scipy (Gen.euler_seq) *)
+Definition euler_compose (Rx Ry Rz : mat (T:=T)) : mat (T:=T) :=
+  match euler_seq with Fixed_xyz => mmul Rz (mmul Ry Rx) | Moving_xyz => mmul Rx (mmul Ry Rz) end.
 Definition det3 (R : mat (T:=T)) : T :=
   let '(a, b, c) := R in
   add O (sub O (mul O (vx a) (sub O (mul O (vy b) (vz c)) (mul O (vz b) (vy c))))
